@@ -30,6 +30,7 @@ class Gen:
         self.rng = rng
         self.profile = profile
         self.cc_specs = {}      # name -> (v4, v6, hb)
+        self.presets = []       # pre-set podCIDR tokens handed out so far (kept mutually disjoint: E7)
         self.rest = 0
         self.stats = {"ops": {}, "faults": 0, "crashes": 0, "dual": 0, "preset_nodes": 0, "cc": 0, "nodes": 0}
 
@@ -65,6 +66,17 @@ class Gen:
         return "cc+ %s %s %s %d %s %s %d %d" % (name, tok4(*v4) if v4 else "-", tok6(*v6) if v6 else "-", hb, sel, fins, gen, self.rest)
 
     def preset_cidrs(self):
+        """pre-existing podCIDRs, mutually disjoint between nodes (assumption E7)"""
+        import sysmon
+        for _ in range(8):
+            cs = self._preset_cidrs()
+            toks = [sysmon.ptok(x) for x in cs.split(",")]
+            if not any(sysmon.overlap(a, b) for a in toks for b in self.presets):
+                self.presets += toks
+                return cs
+        return "-"
+
+    def _preset_cidrs(self):
         """pre-existing podCIDRs: whole blocks of some known ClusterCIDR (or a multiple), or outside all"""
         r = self.rng
         if not self.cc_specs or r.random() < 0.2:
@@ -223,3 +235,218 @@ def gen_histories(rng, n, length=(10, 40), profile="mixed"):
         for k in ("faults", "crashes", "dual", "preset_nodes", "cc", "nodes"):
             agg[k] += s[k]
     return cases, agg
+
+
+# ---------------------------------------------------------------- scenario templates
+def _rng_sel_and_labels(r):
+    """a selector together with a label set satisfying it and one that does not"""
+    return r.choice([
+        ("-", "zone=a", "zone=b"), ("zone:In:a", "zone=a", "zone=b"), ("zone:In:a+b", "zone=b,tier=x", "zone=c"),
+        ("tier:Exists:", "tier=x", "zone=a"), ("zone:NotIn:b", "zone=a", "zone=b"), ("rack:Gt:3", "zone=a,rack=5", "rack=2"),
+        ("zone:In:a;tier:Exists:", "zone=a,tier=x", "zone=a"), ("-", "-", "tier=x"),
+    ])
+
+
+def _overlapping_v4(r):
+    """two IPv4 ranges that are identical, nested or disjoint, with host bits giving small pools"""
+    a, l = r.choice(V4_RANGES)
+    kind = r.choice(["same", "same", "nested", "nested", "disjoint"])
+    if kind == "same":
+        b, m = a, l
+    elif kind == "nested":
+        m = min(l + r.choice([1, 2]), 28)
+        b = mask("v4", a + r.randrange(1 << (32 - l)), m)
+    else:
+        b, m = r.choice(V4_RANGES)
+    hb1 = r.choice([4, 4, 5])
+    hb2 = r.choice([4, 4, 5, 6])
+    hb1 = min(hb1, 32 - l)
+    hb2 = min(hb2, 32 - m)
+    return (a, l, hb1), (b, m, hb2)
+
+
+def sc_replace_cc(r):
+    (a, l, h1), (b, m, h2) = _overlapping_v4(r)
+    sel, good, bad = _rng_sel_and_labels(r)
+    sel2, good2, _ = _rng_sel_and_labels(r)
+    ops = ["cc+ c1 %s - %d %s - 1 1" % (tok4(a, l), h1, sel), "dc", "pc ok",
+           "n+ n1 %s -" % good, "dn", "pn ok", "dn", "pn ok",
+           "cc- c1", "dc", "pc ok",
+           "cc+ c2 %s - %d %s - 1 2" % (tok4(b, m), h2, sel2), "dc", "pc ok",
+           "n+ n2 %s -" % good2, "dn", "pn ok", "dn",
+           "n+ n3 %s -" % good2, "dn", "pn ok", "dn"]
+    if r.random() < 0.5:
+        ops += ["n- n1", "dn", "tick", "pc ok", "dc", "n+ n4 %s -" % good2, "dn", "pn ok"]
+    return ops
+
+
+def sc_stale_fetch(r):
+    (a, l, h1), _ = _overlapping_v4(r)
+    sel, good, bad = _rng_sel_and_labels(r)
+    ops = ["cc+ c1 %s - %d %s - 1 1" % (tok4(a, l), h1, sel), "dc", "pc ok", "n+ n1 %s -" % good, "dn", "fn 1 n1"]
+    k = r.random()
+    if k < 0.4:
+        ops += ["pn ok", "dn", "runn 1 ok", "runn 1 ok", "fn 2 n1", "runn 2 ok"]
+    elif k < 0.7:
+        ops += ["pn ok", "runn 1 ok", "dn", "pn ok"]           # cache still stale at the second run
+    else:
+        ops += ["n- n1", "dn", "runn 1 ok", "n+ n2 %s -" % good, "dn", "pn ok"]
+    ops += ["rn", "pn ok", "pn ok"]
+    return ops
+
+
+def sc_dual_exhaust(r):
+    a, l = r.choice(V4_RANGES)
+    hb = 4
+    l6 = 124 + r.choice([0, 0, -1])
+    v6 = (mask("v6", (0xfd000000 << 96) + 0x10 * r.randrange(8), l6), l6)
+    sel, good, bad = _rng_sel_and_labels(r)
+    ops = ["cc+ c1 %s %s %d %s - 1 1" % (tok4(a, min(l, 28)), tok6(*v6), hb, sel), "dc", "pc ok"]
+    if r.random() < 0.7:
+        b, m = r.choice(V4_RANGES)
+        ops += ["cc+ c2 %s - %d - - 1 2" % (tok4(b, min(m, 28)), 4), "dc", "pc ok"]
+    if r.random() < 0.4:   # an overlapping IPv6-only ClusterCIDR taking the same IPv6 blocks
+        ops += ["cc+ c3 - %s %d %s - 1 3" % (tok6(mask("v6", v6[0], 124), 124), hb, "-"), "dc", "pc ok"]
+    for i in range(1, 6):
+        ops += ["n+ n%d %s -" % (i, good if r.random() < 0.8 else bad), "dn", "pn ok", "dn"]
+    ops += ["n- n1", "dn", "tick", "pn ok", "pn ok", "pn ok"]
+    return ops
+
+
+def sc_faults(r):
+    (a, l, h1), (b, m, h2) = _overlapping_v4(r)
+    sel, good, bad = _rng_sel_and_labels(r)
+    ops = ["cc+ c1 %s - %d %s - 1 1" % (tok4(a, l), h1, sel), "dc", "pc " + r.choice(["ok", "fail", "aerr"]), "tick", "pc ok", "dc", "pc ok"]
+    for i in range(1, 4):
+        ops += ["n+ n%d %s -" % (i, good), "dn",
+                "pn " + r.choice(["fail,fail,fail", "tmo,tmo,tmo", "fail,tmo,ok", "tmo,fail,fail", "fail,ok", "ok"]),
+                "tick", "pn ok", "dn", "pn ok"]
+    ops += ["n- n2", "dn", "cc- c1", "dc", "pc ok", "tick", "pc ok"]
+    return ops
+
+
+def sc_cc_retry(r):
+    (a, l, h1), (b, m, h2) = _overlapping_v4(r)
+    sel, good, bad = _rng_sel_and_labels(r)
+    fins = r.choice(["-", "other.io/f"])
+    ops = ["cc+ c1 %s - %d %s %s 1 1" % (tok4(a, l), h1, sel, fins), "dc", "pc " + r.choice(["fail", "aerr", "fail"]),
+           "n+ n1 %s -" % good, "dn", "pn ok", "dn"]
+    ops += r.choice([["tick", "pc ok"], ["dc", "tick", "pc ok"], ["tick", "pc fail", "tick", "pc ok"], ["rc", "pc ok", "tick", "pc ok"]])
+    ops += ["dc", "pc ok", "cc- c1", "dc", "pc ok", "n- n1", "dn", "tick", "pc ok", "dc", "pc ok",
+            "n+ n2 %s -" % good, "dn", "pn ok"]
+    return ops
+
+
+def sc_restart(r):
+    (a, l, h1), (b, m, h2) = _overlapping_v4(r)
+    sel, good, bad = _rng_sel_and_labels(r)
+    ops = ["cc+ c1 %s - %d %s - 1 1" % (tok4(a, l), h1, sel), "dc", "pc ok", "n+ n1 %s -" % good, "dn", "pn ok"]
+    if r.random() < 0.5:
+        ops += ["cc- c1", "dc"] + (["pc ok"] if r.random() < 0.5 else [])
+    if r.random() < 0.5:
+        ops += ["n+ n2 %s -" % good, "dn", "pn " + r.choice(["ok", "tmo,tmo,tmo", "fail,fail,fail"])]
+    ops += ["crash"]
+    if r.random() < 0.4:
+        ops += [r.choice(["n- n1", "cc+ c2 %s - %d - - 1 2" % (tok4(b, m), h2), "n+ n3 %s -" % good])]
+    ops += ["construct - - " + r.choice(["-", "fail", "aerr"])]
+    if r.random() < 0.4:
+        ops += ["n+ n4 %s -" % good]
+    ops += ["start"]
+    if r.random() < 0.5:
+        ops += ["pn ok", "pn ok", "pc ok", "pc ok", "pn ok"]
+    else:
+        ops += ["pc ok", "pc ok", "pn ok", "pn ok", "pn ok"]
+    ops += ["n+ n5 %s -" % good, "dn", "pn ok"]
+    return ops
+
+
+def sc_cursor(r):
+    a, l = r.choice([(0x0a000000, 26), (0x0a000000, 27), (0xc0a80000, 28), (0x0a000100, 26)])
+    hb = 4
+    n = 1 << (32 - hb - l)
+    ops = ["cc+ c1 %s - %d - - 1 1" % (tok4(a, l), hb), "dc", "pc ok"]
+    if r.random() < 0.5:   # blocks of c1 blocked only by another ClusterCIDR's allocations
+        ops += ["cc+ c2 %s - %d zone:In:b - 1 2" % (tok4(a, l), hb), "dc", "pc ok"]
+        for i in range(1, min(n, 4)):
+            ops += ["n+ n%d zone=b -" % i, "dn", "pn ok", "dn"]
+        ops += ["n+ n5 zone=a -", "dn", "pn ok"]
+        return ops
+    names = NODES[:min(n, 5)]
+    for nm in names:
+        ops += ["n+ %s - -" % nm, "dn", "pn ok", "dn"]
+    victim = r.choice(names)
+    ops += ["n- " + victim, "dn", "n+ %s - -" % victim, "dn", "pn ok", "dn", "pn ok"]
+    return ops
+
+
+def sc_labels(r):
+    (a, l, h1), (b, m, h2) = _overlapping_v4(r)
+    ops = ["cc+ c1 %s - %d zone:In:a - 1 1" % (tok4(a, l), h1), "dc", "pc ok", "n+ n1 zone=a -", "dn", "pn ok", "dn"]
+    k = r.random()
+    if k < 0.5:
+        ops += ["nl n1 zone=b", "dn", "pn ok", "n- n1", "dn"]
+    else:   # a higher-priority overlapping ClusterCIDR appears, the node is re-synced, then deleted
+        ops += ["cc+ c2 %s - %d zone:In:a;tier:Exists: - 1 2" % (tok4(a, l), h1), "dc", "pc ok", "nl n1 zone=a,tier=x", "dn", "pn ok", "n- n1", "dn"]
+    ops += ["cc- c1", "dc", "pc ok", "tick", "pc ok", "n+ n2 zone=a -", "dn", "pn ok"]
+    return ops
+
+
+def sc_service(r):
+    a, l = r.choice(V4_RANGES)
+    hb = min(r.choice([4, 5]), 32 - l)
+    sl = r.choice([max(l - 1, 8), l, min(l + 1, 32), min(l + 2, 32), 32 - hb, min(32 - hb + 1, 32), 30])
+    svc = tok4(mask("v4", a + r.randrange(1 << (32 - l)), sl), sl)
+    ops = ["cc+ c1 %s - %d - - 1 1" % (tok4(a, l), hb)]
+    svc2 = "-"
+    if r.random() < 0.5:
+        a6, l6 = r.choice(V6_RANGES)
+        hb6 = min(hb, 128 - l6)
+        s6 = r.choice([l6, l6 + 1, 126])
+        ops += ["cc+ c2 - %s %d - - 1 2" % (tok6(a6, l6), hb6)]
+        svc2 = tok6(mask("v6", a6 + r.randrange(1 << (128 - l6)), s6), s6)
+    ops += ["construct %s %s -" % (svc, svc2), "start", "pc ok", "pc ok"]
+    for i in range(1, 6):
+        ops += ["n+ n%d - -" % i, "dn", "pn ok", "dn"]
+    return ops
+
+
+def sc_preset(r):
+    (a, l, h1), (b, m, h2) = _overlapping_v4(r)
+    n = 32 - h1
+    k = r.randrange(1 << (n - l))
+    ops = ["n+ n1 zone=a %s" % tok4(a + k * (1 << h1), n)]
+    if r.random() < 0.5:
+        ops += ["cc+ c1 %s - %d %s - 1 1" % (tok4(a, l), h1, r.choice(["-", "zone:In:a"])), "construct - - -", "start", "pc ok", "pn ok"]
+    else:   # the ClusterCIDR is created after the node already holds a CIDR inside it
+        ops += ["construct - - -", "start", "pn ok", "cc+ c1 %s - %d - - 1 1" % (tok4(a, l), h1), "dc", "pc ok"]
+        if r.random() < 0.5:
+            ops += ["rn", "pn ok"]
+    for i in range(2, 5):
+        ops += ["n+ n%d zone=a -" % i, "dn", "pn ok", "dn"]
+    return ops
+
+
+SCENARIOS = [sc_replace_cc, sc_stale_fetch, sc_dual_exhaust, sc_faults, sc_cc_retry, sc_restart, sc_cursor, sc_labels, sc_service, sc_preset]
+
+
+def noise_op(r):
+    return r.choice(["dn", "dc", "tick", "pn ok", "pc ok", "rn", "rc", "dn", "pn ok",
+                     "n- " + r.choice(NODES), "nl %s %s" % (r.choice(NODES), r.choice(LABELSETS)),
+                     "pn fail,fail,fail", "pc fail", "dnt", "nd " + r.choice(NODES), "ccf c1 other.io/f"])
+
+
+def gen_scenarios(rng, n, noise=0.12):
+    cases, counts = [], {}
+    for i in range(n):
+        sc = rng.choice(SCENARIOS)
+        ops = sc(rng)
+        if not any(o.startswith("construct") for o in ops):
+            ops = ["construct - - -", "start"] + ops
+        out = []
+        for o in ops:
+            out.append(o)
+            while rng.random() < noise:
+                out.append(noise_op(rng))
+        cases.append(("%s%d" % (sc.__name__[3:], i), out))
+        counts[sc.__name__] = counts.get(sc.__name__, 0) + 1
+    return cases, counts
